@@ -169,5 +169,24 @@ Qed.
 Example writable_example :
   In ("req.hash_always_miss", "HashAlwaysMiss") (scope_cells "recv") /\
   In ("req.max_stale_if_error", "MaxStaleIfError") (scope_cells "recv") /\
-  In ("obj.response", "ObjectResponse") (scope_cells "error").
+  In ("obj.ttl", "ObjectTTL") (scope_cells "error").
 Proof. vm_compute. intuition. Qed.
+
+(* ---- coupled ctx variables: the DOCUMENTED implicit writes of `set` on a ctx variable ----
+   A Set case that assigns another context field besides its own is not a cell of its own (it is not among the
+   simple cells the generator draws).  The couplings of the source are exactly these: beresp.gzip / beresp.brotli
+   exclude each other (setting one to true clears the other - Fastly documents it), and obj.response is mirrored
+   into the status text of the synthetic response object. *)
+Definition documented_couplings : list (string * (string * (string * list string))) :=
+  [("hit", ("obj.response", ("ObjectResponse", ["Object"])));
+   ("fetch", ("beresp.brotli", ("BackendResponseBrotli", ["BackendResponseGzip"])));
+   ("fetch", ("beresp.gzip", ("BackendResponseGzip", ["BackendResponseBrotli"])));
+   ("error", ("obj.response", ("ObjectResponse", ["Object"])))].
+
+Theorem coupled_are_the_documented : coupled = documented_couplings.
+Proof. vm_compute. reflexivity. Qed.
+
+(* and no coupled name is among the simple cells *)
+Theorem coupled_not_simple :
+  forallb (fun c => negb (mem (fst (snd c)) (map fst (cells_of (fst c))))) coupled = true.
+Proof. vm_compute. reflexivity. Qed.
